@@ -4,6 +4,7 @@ import PynModel.Core.Group
 import PynModel.Core.Meta
 import PynModel.Process.Convolve
 import PynModel.Process.Spectrum
+import PynModel.Process.Tuning
 /-!
 # Line protocol, part 2: container-level operations (series constructor and histories)
 `snew <t> <rows> <sup|none>`            → `t|rows|sup|num/den`
@@ -217,6 +218,15 @@ def specStep (toks : List String) : String :=
     | none => "bad-op"
   | _ => "bad-op"
 
+/-- `hist <edges> <vals>` → counts per bin -/
+def histStep (toks : List String) : String :=
+  match toks with
+  | ["hist1", edges, vals] =>
+    match parseArr edges, parseArr vals with
+    | some edges, some vals => showArr (histCounts edges vals.toList).toArray
+    | _, _ => "bad-op"
+  | _ => "bad-op"
+
 def stepAll (line : String) : String :=
   let toks := (line.trimAscii.toString.splitOn " ").filter (· ≠ "")
   match toks with
@@ -225,6 +235,7 @@ def stepAll (line : String) : String :=
   | "ghist" :: _ => groupStep toks
   | "conv" :: _ => convStep toks
   | "fftbins" :: _ => specStep toks
+  | "hist1" :: _ => histStep toks
   | "tnew" :: _ => metaStep toks
   | "tget" :: _ => metaStep toks
   | "tint" :: _ => metaStep toks
